@@ -293,6 +293,8 @@ class HttpParser(abc.ABC, Generic[_MsgT]):
         # Stop emitting messages once this many are queued unconsumed (0 = off).
         self._max_msg_queue_size = max_msg_queue_size
         self._msg_in_flight = 0
+        # The last message asked to close the connection: no more data is expected.
+        self._should_close = False
 
     @abc.abstractmethod
     def parse_message(self, lines: list[bytes]) -> _MsgT: ...
@@ -346,7 +348,6 @@ class HttpParser(abc.ABC, Generic[_MsgT]):
         # Lines buffered by an earlier call mean we are inside the header block
         max_line_length = self.max_field_size if self._lines else self.max_line_size
 
-        should_close = False
         while start_pos < data_len or self._payload_has_more_data:
             # read HTTP message (request/response line + headers), \r\n\r\n
             # and split by lines
@@ -369,7 +370,7 @@ class HttpParser(abc.ABC, Generic[_MsgT]):
                     continue
 
                 if pos >= start_pos:
-                    if should_close:
+                    if self._should_close:
                         raise BadHttpMessage("Data after `Connection: close`")
 
                     # line found
@@ -518,7 +519,7 @@ class HttpParser(abc.ABC, Generic[_MsgT]):
                         messages.append((msg, payload))
                         if self._max_msg_queue_size:
                             self._msg_in_flight += 1
-                        should_close = msg.should_close
+                        self._should_close = msg.should_close
                 else:
                     self._tail = data[start_pos:]
                     # A bare LF here means CRLF was required:
